@@ -28,6 +28,7 @@ var skeletonFuncs = []string{
 	"Mux.registerService", "Mux.RegisterConn", "Mux.DropConn", "Mux.ServeHTTP", "Mux.serveHTTP", "Mux.serveGRPC", "Mux.serveGRPCWeb", "Mux.encError",
 	"params.set", "method.parseQueryParams", "fieldPath", "NewServer", "createConnHandler",
 	"parseParam", "quote", "streamHTTP.getCodec", "Mux.match",
+	"state.addConnHandler", "state.processFile", "path.alive", "Mux.loadState", "Mux.storeState",
 }
 
 func leanIdent(fn string) string {
